@@ -540,6 +540,9 @@ def _case_b02(spec):
     if M.shape[1] != len(cols):
         fails.append(_fail(spec, "columns", f"matrix has {M.shape[1]} columns for {len(cols)} unknowns"))
         return dict(spec=spec, info=info, fails=fails)
+    if run.ibe != cols:                 # positions in Frame.forces are positions in Frame.internal_big_edges
+        fails.append(_fail(spec, "internal-list", f"Frame.internal_big_edges lists {len(run.ibe)} interfaces, the unknowns are {len(cols)} "
+                                                  f"(no angle limit): not the same list in the same order"))
     # ---- one row pair per junction
     rvals = sorted(rows.values())
     if rvals != list(range(0, 2 * len(rows), 2)) or M.shape[0] != 2 * len(rows):
@@ -660,6 +663,15 @@ def uniqueness(A):
     return bool(s[c - 1] <= 1e-9 * s0 and s[c - 2] >= GAP * s0), float(s0 / max(s[c - 2], 1e-300)), float(s[c - 1] / s0)
 
 
+def multiplier_absorbs(M, got, exp):
+    """the reported tensions balance the assembled equations much worse than the true ones, and a constant added to every
+    equation (the multiplier unknown) accounts for the difference"""
+    rg = M @ got
+    r_got, r_true = float(np.linalg.norm(rg)), float(np.linalg.norm(M @ exp))
+    r_mult = float(np.linalg.norm(rg - rg.mean()))
+    return r_got > 10 * max(r_true, 1e-12) and r_mult < 0.1 * r_got
+
+
 def _case_b01(spec):
     t = make_tissue(spec["tissue"])
     fit, method, ne = spec["fit"], spec.get("method"), spec.get("mesh")
@@ -737,6 +749,12 @@ def _case_b01(spec):
                 fails.append(_fail(spec, f"tension:coefficient-error:{cl_}:{fit}", bad[1] + f"  [cause: coefficient of interface "
                                    f"{run.cols[k_][:3]}..{run.cols[k_][-1]} ({len(run.cols[k_])} points, {cl_}) is {run.M[r_, k_]:.6g}, analytic "
                                    f"{A[r_, k_]:.6g}; no sign-forcing predicate end]"))
+            elif bad[0] == "tension" and not aug_rank_def and multiplier_absorbs(run.M, got, exp):
+                rg, rt = float(np.linalg.norm(run.M @ got)), float(np.linalg.norm(run.M @ exp))
+                fails.append(_fail(spec, "tension:multiplier-absorbs-residual", bad[1] + f"  [all coefficients are within the B02 tolerance; "
+                                   f"the true tensions leave a force-balance residual |M x| = {rt:.3g}, the reported ones {rg:.3g}, which a "
+                                   f"multiplier {-float((run.M @ got).mean()):.3g} added to every equation cancels: the {run.M.shape[0]}+1 equations "
+                                   f"in {run.M.shape[1]}+1 unknowns are solved exactly instead of in the least-squares sense]"))
             elif aug_rank_def and bad[0] == "tension":
                 fails.append(_fail(spec, "tension:augmented-rank-deficient", bad[1] + "  [force balance determines the tensions up to "
                                    "scale (one-dimensional null space) but the augmented system with the multiplier column does not "
@@ -772,7 +790,10 @@ def _case_b05(spec):
     if run is None:
         return dict(spec=spec, info=info, fails=fails)
     M = run.M
-    if not run.cols or not len(run.rows) or len(run.cols) != len(run.ibe):
+    if run.cols != run.ibe:
+        fails.append(_fail(spec, "internal-list", f"{len(run.cols)} unknowns but Frame.internal_big_edges lists {len(run.ibe)} interfaces"))
+        return dict(spec=spec, info=info, fails=fails)
+    if not run.cols or not len(run.rows):
         info["count"]["no_equations"] += 1
         return dict(spec=spec, info=info, fails=fails)
     x = np.array([float(run.forces[i]) for i in range(len(run.ibe))])
@@ -978,7 +999,7 @@ def no_big_lsq(ts, m):
 
 def cases_b02(tier, seed):
     rng = np.random.default_rng(seed + 202)
-    n_arc, n_str, n_lat, n_even = (480, 260, 160, 100) if tier == "quick" else (20000, 11000, 6000, 3000)
+    n_arc, n_str, n_lat, n_even = (480, 260, 160, 100) if tier == "quick" else (5500, 3000, 2000, 1500)
     out = []
     for _ in range(n_arc):
         ts = small_tissue_spec(rng, list(range(0, 16)), moebius=float(rng.choice([0.05, 0.2, 0.4, 0.6, 0.8, 0.95])))
@@ -997,6 +1018,10 @@ def cases_b02(tier, seed):
         kind = str(rng.choice(["square", "brick", "hex"]))
         ts = dict(base="lattice", kind=kind, nx=int(rng.integers(3, 5)), ny=int(rng.integers(3, 5)), seed=0,
                   pts=int(rng.choice([0, 0, 1, 2, 3])))
+        if rng.random() < 0.5:                                # ragged borders, holes: vertices with 3 cells but 2 internal interfaces
+            lt = lattice(kind, ts["nx"], ts["ny"])
+            ts["subset"] = [int(c) for c in gen.random_connected_subset(lt, int(rng.integers(3, len(lt.cells))), int(rng.integers(1 << 30)),
+                                                                        holes=int(rng.integers(0, 2)))]
         u = rng.random()
         if u < 0.45:
             ts["xf"] = None
@@ -1012,7 +1037,7 @@ def cases_b02(tier, seed):
 
 def cases_b01(tier, seed):
     rng = np.random.default_rng(seed + 101)
-    n = 600 if tier == "quick" else 24000
+    n = 600 if tier == "quick" else 6500
     out = []
     methods = [None, "lsq_linear", "lsq"]
     for i in range(n):
@@ -1032,7 +1057,7 @@ def cases_b01(tier, seed):
 
 def cases_b05(tier, seed):
     rng = np.random.default_rng(seed + 505)
-    n = 600 if tier == "quick" else 24000
+    n = 600 if tier == "quick" else 6500
     out = [dict(check="B05", tissue=dict(base="flower", seed=0, pts=0), fit="dlite", method="fix_stress"),
            dict(check="B05", tissue=dict(base="hex_patch", seed=1, pts=3, moebius=0.6, mseed=2, noise=dict(sigma=0.05, seed=3)),
                 fit="dlite", method="fix_stress")]
@@ -1058,7 +1083,7 @@ def cases_b05(tier, seed):
 
 def cases_b16(tier, seed):
     rng = np.random.default_rng(seed + 1616)
-    n = 380 if tier == "quick" else 16000
+    n = 380 if tier == "quick" else 3800
     out = []
     for i in range(n):
         curved = rng.random() < 0.5
@@ -1196,8 +1221,9 @@ def aggregate(results, not_run, rule, extra_nontrivial_key=()):
     return out
 
 
-def _budget(tier):
-    return 30.0 if tier == "quick" else 420.0
+def _budget(tier, share=4):
+    """seconds after which a check stops collecting results (the file's checks together stay within 45 s / 10 min)"""
+    return (44.0 if tier == "quick" else 580.0) / share
 
 
 @bounded("B02", ["C02", "C01"], "assembled force-balance system equals the closed-form unit tangents, per coefficient",
@@ -1205,8 +1231,9 @@ def _budget(tier):
                "9-cell hexagonal patch, 7-cell flower, 7-cell strip, random connected subsets (with holes) of 25/40-site Voronoi "
                "tissues; 0..15 interior points per interface; poses: uniform rotations, rotations putting a chosen tangent at "
                "0, 1e-12 .. 0.5 degree from a coordinate axis, reflections, scales 1e-3..1e3, shifts; square / brick / hexagon "
-               "lattices 3..4 x 3..4 at 0, k*90 degrees, k*90 +- 1e-9..2e-3 and arbitrary angles; fit in {dlite, taubinSVD}; "
-               "ignore_four on/off; quick 640 cases, thorough 13000")
+               "lattices 3..4 x 3..4 (whole and random connected subsets with holes) at 0, k*90 degrees, k*90 +- 1e-9..2e-3 and "
+               "arbitrary angles; 100 (quick) straight tissues with an even number of points per interface and one interface "
+               "0..1e-7 rad from an axis; fit in {dlite, taubinSVD}; ignore_four on/off; quick 1000 cases, thorough 12000")
 def run_b02(tier, seed):
     res, nr = run_all(cases_b02(tier, seed), _run_case, _budget(tier))
     return aggregate(res, nr,
@@ -1225,7 +1252,7 @@ def run_b02(tier, seed):
          bound="equilibrium tissues: Voronoi (tension = site distance; hexagonal patch, flower, strip, 25/40-site random, whole and "
                "connected subsets) with 0..16 interior points and their Moebius images (strength 0.1..0.9, 1..16 points); random "
                "rotations / near-axis rotations / reflections / scales 1e-3..1e3 / shifts; generate_mesh(ne=2..12) on 30 % of the "
-               "cases with >=2 points; method in {default, lsq_linear, lsq} x fit in {dlite, taubinSVD}; quick 420, thorough 9000")
+               "cases with >=2 points; method in {default, lsq_linear, lsq} x fit in {dlite, taubinSVD}; quick 600, thorough 6500")
 def run_b01(tier, seed):
     res, nr = run_all(cases_b01(tier, seed), _run_case, _budget(tier))
     return aggregate(res, nr,
@@ -1245,7 +1272,7 @@ def run_b01(tier, seed):
          bound="noisy tissues (vertex noise 0.01..0.3 mesh-edge lengths on straight and Moebius tissues, 0..8 points) and "
                "consistent tissues, whole and sub-tissues (square and rectangular systems), random scale 1e-3..1e3 / rotation / "
                "shift on 30 %; method default and 'lsq' everywhere, 'lsq_linear' on consistent systems; fix_stress twice; "
-               "allow_negatives=False; quick 362, thorough 8002")
+               "allow_negatives=False; quick 602, thorough 6502")
 def run_b05(tier, seed):
     res, nr = run_all(cases_b05(tier, seed), _run_case, _budget(tier))
     return aggregate(res, nr,
@@ -1261,7 +1288,7 @@ def run_b05(tier, seed):
 @bounded("B16", ["C16"], "angle-limit exclusion: flagged set, -1 positions and solution of the restricted system",
          bound="straight and Moebius tissues (whole and sub-tissues), 60 % with vertex noise, random rotation; angle limit uniform "
                "in [0.5 pi, pi], exactly pi, and the default; fit in {dlite, taubinSVD}; back-end default (88 %) and 'lsq'; "
-               "quick 300, thorough 6000")
+               "quick 380, thorough 3800")
 def run_b16(tier, seed):
     res, nr = run_all(cases_b16(tier, seed), _run_case, _budget(tier))
     return aggregate(res, nr,
